@@ -24,7 +24,14 @@ def cases(seed, tier, broken=()):
             for rel in dict.fromkeys(rels):
                 out.append({"cls": cls, "rel": rel, "mseed": int(rng.integers(0, 2**31)), "k": int(rng.integers(2, 4)),
                             "standardize": bool(rng.random() < 0.3), "use_coslat": bool(rng.random() < 0.3),
-                            "sname": str(rng.choice(["S", "sample_dim", "time2"])), "fname": str(rng.choice(["F", "feat", "space"]))})
+                            "sname": str(rng.choice(["S", "sample_dim", "time2"])), "fname": str(rng.choice(["F", "feat", "space"])),
+                            "use_pca": bool(rng.random() < 0.5)})
+    # orientation of intermediate bases (PCA pre-reduction) must not leak into the signs: cross-set models with all PCs kept
+    for r in range({"quick": 2, "thorough": 12, "search": 6}[tier]):
+        for cls in ("MCA", "CCA", "RDA"):
+            for rel in ("feature_perm", "sample_perm"):
+                out.append({"cls": cls, "rel": rel, "mseed": int(rng.integers(0, 2**31)), "k": 3, "standardize": False, "use_coslat": False,
+                            "sname": "S", "fname": "F", "use_pca": True})
     # the bootstrapper is built on top of EOF
     for r in range(reps):
         out.append({"cls": "EOFBootstrapper", "rel": "names", "mseed": int(rng.integers(0, 2**31)), "k": 2, "standardize": False, "use_coslat": False,
@@ -33,7 +40,7 @@ def cases(seed, tier, broken=()):
 
 
 def nontrivial_key(case, info):
-    return (case["cls"], case["rel"], case["k"], case["standardize"], case["use_coslat"], case["sname"], case["fname"])
+    return (case["cls"], case["rel"], case["k"], case["standardize"], case["use_coslat"], case["sname"], case["fname"], case.get("use_pca"))
 
 
 def field(rng, n, ny, nx, cplx, off=0.0):
@@ -89,6 +96,9 @@ def cfg_for(case, names=False):
         cfg.update(n_pca_modes=4)
     if b == "SparsePCA":
         cfg["alpha"] = 1e-3
+    if b in zoo.CROSS and case.get("use_pca"):
+        # the PCA pre-reduction keeping every mode is a change of basis: nothing may depend on the layout through it either
+        cfg.update(use_pca=True, n_pca_modes="all")
     if names:
         cfg["sample_name"] = case["sname"]
         if b in zoo.CROSS:
@@ -232,6 +242,7 @@ def run(case):
     checks = 0
     b = zoo.base_of(zc)
     gauge_complex = cplx or b in ("POP",) or "Hilbert" in zc
+    strict_sign = (not gauge_complex) and zc in ("EOF", "MCA", "CCA", "RDA", "CPCCA", "EOFRotator", "MCARotator", "CPCCARotator")
     # spectra
     def spec(m):
         if zoo.is_cross(zc):
@@ -265,7 +276,12 @@ def run(case):
             if set(ra) != set(rb) or relerr(A_, B_) > 1e-6:
                 F.append(Finding("oracle", "relayout_invariant", cc + "|scores", f"POP score amplitudes differ (rel {relerr(A_, B_):.2e})"))
             continue
-        compare_rows(ra, rb, f"scores[{i}]", gauge_complex, F, cc + "|scores", tol=max(tol, 1e-6))
+        e_g = compare_rows(ra, rb, f"scores[{i}]", gauge_complex, F, cc + "|scores", tol=max(tol, 1e-6))
+        # real models with an exact solver also fix the SIGN of every mode from the numbers alone (largest-magnitude loading positive),
+        # so not even a per-mode sign may depend on the layout
+        if e_g is not None and e_g <= max(tol, 1e-6) and strict_sign:
+            checks += 1
+            compare_rows(ra, rb, f"scores[{i}] (signs)", gauge_complex, F, cc + "|scores|sign", tol=max(tol, 1e-6), free_gauge=False)
     # components: label-wise over (lat, lon) labels, merging variables/list items
     if rel not in ("split_ds",) and b != "POP":
         cA, cB = zoo.components(zc, mA), zoo.components(zc, mB)
@@ -276,5 +292,8 @@ def run(case):
             ra = to_label_matrix([a])
             rb = to_label_matrix([b_])
             checks += 1
-            compare_rows(ra, rb, f"components[{i}]", gauge_complex, F, cc + "|components", tol=max(tol, 1e-6))
+            e_g = compare_rows(ra, rb, f"components[{i}]", gauge_complex, F, cc + "|components", tol=max(tol, 1e-6))
+            if e_g is not None and e_g <= max(tol, 1e-6) and strict_sign:
+                checks += 1
+                compare_rows(ra, rb, f"components[{i}] (signs)", gauge_complex, F, cc + "|components|sign", tol=max(tol, 1e-6), free_gauge=False)
     return {"findings": F, "info": {"oracle_checks": {"n": checks}, "dist": {"cls": cls, "rel": rel}}}
